@@ -315,6 +315,60 @@ def _caller_records(prog, helper, idx) -> bool:
     return False
 
 
+def _eval_dispatch(g, p_tb, code, p_prof):
+    """Three-valued value of a normalised guard when the tiebreak parameter equals the string `code` and a profile was
+    supplied: True / False / None (depends on something else)."""
+    k = g[0]
+    if k == "const":
+        return bool(g[1])
+    if k == "not":
+        v = _eval_dispatch(g[1], p_tb, code, p_prof)
+        return None if v is None else not v
+    if k in ("and", "or"):
+        vals = [_eval_dispatch(x, p_tb, code, p_prof) for x in g[1]]
+        dom = (k == "or")
+        if any(v is dom for v in vals):
+            return dom
+        return None if any(v is None for v in vals) else (not dom)
+    if k == "atom":
+        a = g[1]
+        m = re.fullmatch(rf"eq\('([^']*)', {p_tb}\)|eq\({p_tb}, '([^']*)'\)", a)
+        if m:
+            return (m.group(1) if m.group(1) is not None else m.group(2)) == code
+        m = re.fullmatch(rf"in\({p_tb}, ([\(\[\{{].*[\)\]\}}])\)", a)
+        if m:
+            try:
+                vals = ast.literal_eval(m.group(1))
+            except Exception:  # noqa
+                return None
+            return code in vals if all(isinstance(v, str) for v in vals) else None
+        if a in (f"truthy({p_prof})", f"is_not_none({p_prof})", f"isnot({p_prof}, None)"):
+            return True
+        if a in (f"is_none({p_prof})", f"is({p_prof}, None)"):
+            return False
+    return None
+
+
+def _dispatch_clause(ctx, f, N, pm, p_tb, p_prof, want):
+    """Which branch serves which code: with tiebreak == K (and a profile) the site of K is not cut off by the conditions
+    above it, and with a code that is none of the three nothing is drawn or scored - decided by evaluating the path
+    condition of each site under the assignment; a condition that depends on anything else gives no verdict."""
+    sites = {"random": [n for n in astx.walk_own(f.node) if isinstance(n, ast.Call) and astx.call_name(n) in ("sample", "shuffle", "permutation", "choice")]}
+    for code, fn in want.items():
+        sites[code] = [n for n in astx.walk_own(f.node) if isinstance(n, ast.Call) and astx.call_name(n) == fn]
+    for code, ns in sites.items():
+        if not ns:
+            continue
+        conds = [(n, N.conj(astx.path_condition(f.node, n, pm))) for n in ns]
+        reach = [_eval_dispatch(g, p_tb, code, p_prof) for _n, g in conds]
+        ctx.check(not all(v is False for v in reach), f, ns[0], f"tiebreak == '{code}' reaches its own branch", bool_key(conds[0][1]),
+                  f"`{astx.u(ns[0])[:60]}` stands under `{bool_key(conds[0][1])}`, which is false when tiebreak == '{code}': the requested tiebreak is never applied")
+        for n, g in conds:
+            v = _eval_dispatch(g, p_tb, "\x00unrecognised", p_prof)
+            ctx.check(v is not True, f, n, f"an unrecognised tiebreak code does not reach the '{code}' branch", bool_key(g),
+                      f"`{astx.u(n)[:60]}` under `{bool_key(g)}` is reached for any tiebreak string: an invalid code is served instead of rejected")
+
+
 def r4_fallback(ctx):
     prog = ctx.prog
     f = prog.find_func("tiebreak_set")
@@ -356,6 +410,7 @@ def r4_fallback(ctx):
             n, good, k = found[code]
             ctx.check(good, f, n, f"'{code}' tiebreak uses {want[code]}(profile)", k,
                       f"{astx.u(n)[:70]} under `{k}`: wrong score for the requested tiebreak code, or not the caller's profile")
+    _dispatch_clause(ctx, f, N, pm, p_tb, p_prof, want)
     # restriction to the tied set
     restr = [n for n in astx.walk_own(f.node) if isinstance(n, ast.DictComp) and
              any(bool_key(N.guard(t)) == f"in({n.generators[0].target.elts[0].id if isinstance(n.generators[0].target, ast.Tuple) else '?'}, {p_set})"
@@ -675,4 +730,18 @@ FAULTS += [
 ]
 BENIGN += [
     ("test-first selector", [(UT, _SEL_REGION, _SEL_TEST_FIRST % ("<=", ""))]),
+]
+
+# which branch of tiebreak_set serves which code (dispatch clause of C10.R4)
+_TB_ELIF = '    elif (tiebreak == "first_place" or tiebreak == "borda") and profile:\n'
+FAULTS += [
+    ("first_place tiebreak cut off by the branch condition", [(UT, _TB_ELIF, '    elif (tiebreak != "first_place" or tiebreak == "borda") and profile:\n')], "C10.R4"),
+    ("scored branch needs both codes at once", [(UT, _TB_ELIF, '    elif (tiebreak == "first_place" and tiebreak == "borda") and profile:\n')], "C10.R4"),
+    ("any code is served once a profile is given", [(UT, _TB_ELIF, '    elif (tiebreak == "first_place" or tiebreak == "borda") or profile:\n')], "C10.R4"),
+]
+BENIGN += [
+    ("scored codes tested by membership", [(UT, _TB_ELIF, '    elif tiebreak in ("first_place", "borda") and profile:\n')]),
+    ("scored codes tested by membership, profile compared with None", [(UT, _TB_ELIF, '    elif profile is not None and tiebreak in ["borda", "first_place"]:\n')]),
+    ("inner choice of the score by the other code", [(UT, '        if tiebreak == "borda":\n            tiebreak_scores = borda_scores(profile)\n        else:\n            tiebreak_scores = first_place_votes(profile)\n',
+                                                     '        if tiebreak == "first_place":\n            tiebreak_scores = first_place_votes(profile)\n        else:\n            tiebreak_scores = borda_scores(profile)\n')]),
 ]
